@@ -14,9 +14,11 @@ import sys, json, subprocess, time
 id_, p, rc, line = sys.argv[1:5]
 head = subprocess.run(["git","-C","/repo","rev-parse","--short","HEAD"],capture_output=True,text=True).stdout.strip()
 vh = subprocess.run(["git","-C","/verif","rev-parse","--short","HEAD"],capture_output=True,text=True).stdout.strip()
-d = {"seeded": id_, "check": p, "tier": "quick", "exit": int(rc or -1), "detected": rc == "1" and line.startswith("VIOLATION"),
+import os
+seed = os.environ.get("VERIF_SEED", "0")
+d = {"seeded": id_, "check": p, "tier": "quick", "seed": int(seed), "exit": int(rc or -1), "detected": rc == "1" and line.startswith("VIOLATION"),
      "violation_line": line, "repo_head": head, "verif_head": vh, "at": time.strftime("%Y-%m-%d %H:%M:%S")}
-json.dump(d, open(f"/verif/seeded/{id_}/detection.json", "w"), indent=1)
+json.dump(d, open(f"/verif/seeded/{id_}/detection" + ("" if seed == "0" else f"_seed{seed}") + ".json", "w"), indent=1)
 print(id_, "DETECTED" if d["detected"] else "MISSED", line[:120])
 PY
 done
